@@ -249,7 +249,19 @@ def generic_cases():
     """Default values next to fields whose type mentions a type / const parameter (the automatic `FieldTy: Default` bound
     is what makes these impls well-formed): (definition, instantiation, expected value)."""
     W = "#[derive(Debug)] pub struct W<const M: usize>(pub u8);\nimpl ::core::default::Default for W<2> { fn default() -> Self { W(9) } }\n"
-    return [
+    S = "::std::string::String"
+    frag = [
+        # values handed in through macro_rules! fragments: the same conversion and the same meaning as written in place
+        (f"pub const K: u8 = 3;\nmacro_rules! mk {{ ($e:expr, $p:path, $l:literal) => {{ pub struct Ty {{ #[default($e)] pub a: {S}, #[default($p)] pub b: u32, #[default($l)] pub c: {S}, #[default($e)] pub d: ::dxrt::Conv }} }} }}\nmk!(\"abc\", K, \"x\");",
+         "Ty", f"Ty {{ a: {S}::from(\"abc\"), b: 3, c: {S}::from(\"x\"), d: ::core::convert::Into::into(\"abc\") }}"),
+        (f"pub const K: u8 = 3;\nmacro_rules! mk {{ ($e:expr, $f:expr) => {{ pub struct Ty {{ #[default($e)] pub a: u32, #[default($f * 2)] pub b: u8, #[default(10 - $f)] pub c: u8, pub d: u8 }} }} }}\nmk!(self::K, 1 + 2);",
+         "Ty", "Ty { a: 3, b: 6, c: 7, d: 0 }"),
+        (f"macro_rules! mk {{ ($e:expr) => {{ /*HEAD*/#[default($e)] pub struct Ty(pub {S}); impl ::core::convert::From<&str> for Ty {{ fn from(s: &str) -> Self {{ Ty({S}::from(s)) }} }} }} }}\nmk!(\"tl\");",
+         "Ty", f"Ty({S}::from(\"tl\"))"),
+        (f"macro_rules! mk {{ ($e:expr) => {{ pub enum Ty {{ A, #[default] B {{ #[default($e)] s: {S}, #[default(1 + $e.len() as u8 * 2)] n: u8 }} }} }} }}\nmk!(\"ab\");",
+         "Ty", f"Ty::B {{ s: {S}::from(\"ab\"), n: 5 }}"),
+    ]
+    return frag + [
         ("pub struct Ty<const N: usize> { pub buf: [u8; N], #[default(7)] pub len: u8 }", "Ty<3>", "Ty::<3> { buf: [0u8; 3], len: 7 }"),
         ("pub struct Ty<T, const N: usize>(#[default(N as u8)] pub u8, pub [T; N]);", "Ty<i8, 2>", "Ty::<i8, 2>(2, [0i8; 2])"),
         ("pub enum Ty<const N: usize> { A, #[default] B([u16; N], #[default(\"s\")] ::std::string::String) }", "Ty<4>",
@@ -315,9 +327,13 @@ def run(rep, tier, rng):
             pre += "pub const" + tail + "\n"
         run_ = (f'pub fn run() {{ let got: {inst} = ::core::default::Default::default(); let want = {want};\n'
                 f'::dxrt::ev!("default", "got" => format!("{{:?}}", got), "want" => format!("{{:?}}", want)); }}')
-        cases.append(C.Case(f"g{j}", f"{pre}#[derive(Debug)]\n{head}{kw}{item}\n{run_}", {"kind": "gen", "defn": defn}))
+        if "/*HEAD*/" in pre:
+            full, bare = pre.replace("/*HEAD*/", f"#[derive(Debug)]\n{head}") + kw + item, pre.replace("/*HEAD*/", "#[derive(Debug)]\n") + kw + item
+        else:
+            full, bare = f"{pre}#[derive(Debug)]\n{head}{kw}{item}", f"{pre}#[derive(Debug)]\n{kw}{item}"
+        cases.append(C.Case(f"g{j}", f"{full}\n{run_}", {"kind": "gen", "defn": defn}))
         import re as _re
-        plain = _re.sub(r"#\[default(\([^\]]*\))?\]\s*", "", f"{pre}#[derive(Debug)]\n{kw}{item}")
+        plain = _re.sub(r"#\[default(\([^\]]*\))?\]\s*", "", bare)
         cases.append(C.Case(f"h{j}", plain + f"\npub fn run() {{ let _ = {want}; }}", {"kind": "ctl"}))
     _, notes = C.run_cases(cases, "c11", header=HEADER, batch_size=40)
     for n in notes:
